@@ -5,4 +5,5 @@ From Coq Require Import Extraction ExtrOcamlBasic.
 From Robsd Require Import Exec.ArgvDefs Exec.ArgvSpec.
 Extraction Language OCaml.
 Extraction "av_model.ml" mode_schedule resolve step_argv run_with hook_run exit_of_wait exit_spec
-  expect_step expect_hook spec_ok_step spec_ok_hook find_step_null_checked N.of_nat run_fork.
+  expect_step expect_hook spec_ok_step spec_ok_hook find_step_null_checked N.of_nat run_fork
+  step_exec_run empty_command_checked.
